@@ -140,6 +140,9 @@ func (p *c13Proxy) Send(m interface{}) {
 func (sc *c13Scenario) Run(s *simrt.Sim) {
 	h := &Hist{S: s}
 	sc.h = h
+	// the library's default instances (default Handler/Actor and whatever else the package creates when it is loaded) are
+	// re-created inside every simulation: code that falls back on them runs on simulated threads (see C12, C16)
+	fpgo.SimReinit()
 	byMsg := map[int]*c13Req{}
 	reply := func(r *c13Req, ask *fpgo.AskDef[int, int]) {
 		r.tr = s.Now()
